@@ -61,13 +61,22 @@ def translate(F: cs.Function, bind):
             raise UnsupportedOp("matrix input")
         in_rows.append(list(sp.row()) if c == 1 else list(range(sp.nnz())))
     opcount = {}
+    nanconst = set()  # work slots currently holding a NaN literal
     for k in range(n_ins):
         op = F.instruction_id(k)
         opcount[op] = opcount.get(op, 0) + 1
         ii = F.instruction_input(k)
         oo = F.instruction_output(k)
         if op == cs.OP_CONST:
-            w[oo[0]] = S(c=symx.frac_of(F.instruction_constant(k)))
+            cval = F.instruction_constant(k)
+            if cval != cval or cval in (float("inf"), float("-inf")):
+                # a NaN/inf literal baked into the function (e.g. math.exp applied to a symbol): an undefined value.
+                # C fmin/fmax ignore a NaN operand -- handled below; everything else propagates it.
+                w[oo[0]] = S(z3.RealVal(0), d=z3.BoolVal(False))
+                nanconst.add(oo[0])
+            else:
+                w[oo[0]] = S(c=symx.frac_of(cval))
+                nanconst.discard(oo[0])
             wb[oo[0]] = None
             continue
         if op == cs.OP_INPUT:
@@ -119,6 +128,8 @@ def translate(F: cs.Function, bind):
         elif op == cs.OP_COPYSIGN:
             absa = abs(a)
             res = S(z3.If(b.t >= 0, absa.t, -absa.t), d=_conj(a.d, b.d))
+        elif op in (cs.OP_FMIN, cs.OP_FMAX) and (ii[0] in nanconst) != (ii[1] in nanconst):
+            res = b if ii[0] in nanconst else a  # fmin(x, NaN) = x
         elif op == cs.OP_FMIN:
             res = _min(a, b)
         elif op == cs.OP_FMAX:
@@ -153,6 +164,11 @@ def translate(F: cs.Function, bind):
             raise UnsupportedOp(f"casadi opcode {op}")
         w[oo[0]] = res
         wb[oo[0]] = res_b
+        if any(x in nanconst for x in ii) and op not in (cs.OP_FMIN, cs.OP_FMAX, cs.OP_IF_ELSE_ZERO):
+            nanconst.add(oo[0])
+            w[oo[0]] = S(z3.RealVal(0), d=z3.BoolVal(False))
+        else:
+            nanconst.discard(oo[0])
     named = [(F.name_out(i), outs[i]) for i in range(F.n_out())]
     info = {"n_instructions": n_ins, "sz_w": F.sz_w(), "opcodes": {str(k): v for k, v in sorted(opcount.items())}}
     return named, info
